@@ -66,3 +66,31 @@ func lockHeldAcrossChannelOp(c *cx, id string, pkgPrefix string) int {
 	}
 	return n
 }
+
+// deferredReleaseNotInLoop (C09.29 / C04.16 / C01.25): a deferred Unlock runs
+// when the FUNCTION returns. Inside a loop body it keeps the mutex held for
+// the rest of the function: the next iteration's Lock - or the next call of an
+// accessor that takes the lock (Session.State in the feature loop) - waits for
+// a release that only this goroutine can perform. The must-lockset analysis
+// does not see it (at the loop head "held" and "not held" merge to "not
+// held"), so the shape is ruled out directly: no defer statement that
+// releases a mutex lies on a cycle of the function's control-flow graph.
+func deferredReleaseNotInLoop(c *cx, id string) int {
+	n := 0
+	for _, f := range c.allFns() {
+		g := f.Graph()
+		for _, d := range g.Defers {
+			op, cls, _ := f.LockOp(d.Call)
+			if op != -1 {
+				continue
+			}
+			n++
+			pt, ok := g.Where(d)
+			if !ok {
+				continue
+			}
+			c.r.Check(id, f, "deferred release of "+cls, "O: a deferred Unlock is not inside a loop (it would hold the mutex across iterations, until the function returns)", d.Pos(), !g.Reachable(g.After(pt), pt, nil, nil), "the defer statement lies in a loop: after the first iteration the mutex stays held, and the next Lock or locking accessor of this goroutine blocks for ever")
+		}
+	}
+	return n
+}
